@@ -218,4 +218,9 @@ MUTANTS = [
     {"prop": "C12", "name": "rollback-dies-on-unhashable-key", "file": CR,
      "old": "            try:\n                key = self._active_ctx.hashable()\n            except TypeError:\n                # the failure may be just that: an unhashable parameter value\n                pass\n            else:\n                self._caches.pop(key, None)\n                self._context_units.pop(key, None)\n",
      "new": "            key = self._active_ctx.hashable()\n            self._caches.pop(key, None)\n            self._context_units.pop(key, None)\n"},
+    {"prop": "C13", "name": "implicit-name-definition-as-redefinition", "file": PR,
+     "old": "        is_new = key not in target_dict or was_implicit\n", "new": "        is_new = key not in target_dict\n        was_implicit = False\n"},
+    {"prop": "C08", "name": "implicit-name-definition-not-case-indexed", "file": PR,
+     "old": "        if casei_target_dict is not None:\n            casei_target_dict[key.lower()].add(key)\n        if target_dict is self._units:",
+     "new": "        if casei_target_dict is not None and key not in self._prefixed_units:\n            casei_target_dict[key.lower()].add(key)\n        if target_dict is self._units:"},
 ]
